@@ -2059,7 +2059,7 @@ lyd_validate(struct lyd_node **tree, const struct lys_module *module, const stru
     struct lyd_node *first, *next, **first2, *iter;
     const struct lys_module *mod;
     struct ly_set node_types = {0}, meta_types = {0}, node_when = {0}, ext_node = {0}, ext_val = {0};
-    uint32_t i = 0, impl_opts;
+    uint32_t i = 0, impl_opts, pass;
     struct ly_ht *getnext_ht = NULL;
 
     assert(tree && ctx);
@@ -2074,87 +2074,104 @@ lyd_validate(struct lyd_node **tree, const struct lys_module *module, const stru
         ext_val_p = &ext_val;
     }
 
-    next = *tree;
-    while (1) {
-        if (val_opts & LYD_VALIDATE_PRESENT) {
-            mod = lyd_data_next_module(&next, &first);
-        } else {
-            mod = lyd_mod_next_module(*tree, module, ctx, &i, &first);
-        }
-        if (!mod) {
-            break;
-        }
-        if (!first || (first == *tree)) {
-            /* make sure first2 changes are carried to tree */
-            first2 = tree;
-        } else {
-            first2 = &first;
-        }
+    /* unres sets filled by a data parser (no subtree validation) hold nodes of all the modules, so the top-level
+     * implicit nodes of all the modules are created (pass 0) before anything in the sets is resolved */
+    for (pass = validate_subtree ? 1 : 0; pass < 2; ++pass) {
+        next = *tree;
+        i = 0;
+        while (1) {
+            if (val_opts & LYD_VALIDATE_PRESENT) {
+                mod = lyd_data_next_module(&next, &first);
+            } else {
+                mod = lyd_mod_next_module(*tree, module, ctx, &i, &first);
+            }
+            if (!mod) {
+                break;
+            }
+            if (!first || (first == *tree)) {
+                /* make sure first2 changes are carried to tree */
+                first2 = tree;
+            } else {
+                first2 = &first;
+            }
 
-        /* create the getnext hash table for this module */
-        r = lyd_val_getnext_ht_new(&getnext_ht);
-        LY_CHECK_ERR_GOTO(r, rc = r, cleanup);
-
-        /* validate new top-level nodes of this module, autodelete */
-        r = lyd_validate_new(first2, *first2 ? lysc_data_parent((*first2)->schema) : NULL, mod, NULL, val_opts, 0,
-                getnext_ht, diff);
-        LY_VAL_ERR_GOTO(r, rc = r, val_opts, cleanup);
-
-        /* add all top-level defaults for this module, if going to validate subtree, do not add into unres sets
-         * (lyd_validate_subtree() adds all the nodes in that case) */
-        impl_opts = 0;
-        if (val_opts & LYD_VALIDATE_NO_STATE) {
-            impl_opts |= LYD_IMPLICIT_NO_STATE;
-        }
-        if (val_opts & LYD_VALIDATE_NO_DEFAULTS) {
-            impl_opts |= LYD_IMPLICIT_NO_DEFAULTS;
-        }
-        if (validate_subtree) {
-            r = lyd_new_implicit(lyd_parent(*first2), first2, NULL, mod, NULL, NULL, NULL, impl_opts, getnext_ht, diff);
+            /* create the getnext hash table for this module */
+            r = lyd_val_getnext_ht_new(&getnext_ht);
             LY_CHECK_ERR_GOTO(r, rc = r, cleanup);
-        } else {
-            /* descendants will not be validated, create them all */
-            r = lyd_new_implicit_r(lyd_parent(*first2), first2, NULL, mod, node_when_p, node_types_p, ext_node_p,
-                    impl_opts, getnext_ht, diff);
-            LY_CHECK_ERR_GOTO(r, rc = r, cleanup);
-        }
 
-        /* our first module node pointer may no longer be the first */
-        first = *first2;
-        lyd_first_module_sibling(&first, mod);
-        if (!first || (first == *tree)) {
-            first2 = tree;
-        } else {
-            first2 = &first;
-        }
+            if (!pass || validate_subtree) {
+                /* validate new top-level nodes of this module, autodelete */
+                r = lyd_validate_new(first2, *first2 ? lysc_data_parent((*first2)->schema) : NULL, mod, NULL, val_opts, 0,
+                        getnext_ht, diff);
+                LY_VAL_ERR_GOTO(r, rc = r, val_opts, cleanup);
 
-        if (validate_subtree) {
-            /* process nested nodes */
-            LY_LIST_FOR(*first2, iter) {
-                if (lyd_owner_module(iter) != mod) {
-                    break;
+                /* add all top-level defaults for this module, if going to validate subtree, do not add into unres sets
+                 * (lyd_validate_subtree() adds all the nodes in that case) */
+                impl_opts = 0;
+                if (val_opts & LYD_VALIDATE_NO_STATE) {
+                    impl_opts |= LYD_IMPLICIT_NO_STATE;
+                }
+                if (val_opts & LYD_VALIDATE_NO_DEFAULTS) {
+                    impl_opts |= LYD_IMPLICIT_NO_DEFAULTS;
+                }
+                if (validate_subtree) {
+                    r = lyd_new_implicit(lyd_parent(*first2), first2, NULL, mod, NULL, NULL, NULL, impl_opts, getnext_ht,
+                            diff);
+                    LY_CHECK_ERR_GOTO(r, rc = r, cleanup);
+                } else {
+                    /* descendants will not be validated, create them all */
+                    r = lyd_new_implicit_r(lyd_parent(*first2), first2, NULL, mod, node_when_p, node_types_p, ext_node_p,
+                            impl_opts, getnext_ht, diff);
+                    LY_CHECK_ERR_GOTO(r, rc = r, cleanup);
                 }
 
-                r = lyd_validate_subtree(iter, node_when_p, node_types_p, meta_types_p, ext_node_p, ext_val_p,
-                        val_opts, 0, getnext_ht, diff);
-                LY_VAL_ERR_GOTO(r, rc = r, val_opts, cleanup);
+                /* our first module node pointer may no longer be the first */
+                first = *first2;
+                lyd_first_module_sibling(&first, mod);
+                if (!first || (first == *tree)) {
+                    first2 = tree;
+                } else {
+                    first2 = &first;
+                }
             }
+
+            if (pass) {
+                if (validate_subtree) {
+                    /* process nested nodes */
+                    LY_LIST_FOR(*first2, iter) {
+                        if (lyd_owner_module(iter) != mod) {
+                            break;
+                        }
+
+                        r = lyd_validate_subtree(iter, node_when_p, node_types_p, meta_types_p, ext_node_p, ext_val_p,
+                                val_opts, 0, getnext_ht, diff);
+                        LY_VAL_ERR_GOTO(r, rc = r, val_opts, cleanup);
+                    }
+                }
+
+                /* finish incompletely validated terminal values/attributes and when conditions */
+                r = lyd_validate_unres(first2, mod, LYD_TYPE_DATA_YANG, node_when_p, 0, node_types_p, meta_types_p,
+                        ext_node_p, ext_val_p, val_opts, diff);
+                LY_VAL_ERR_GOTO(r, rc = r, val_opts, cleanup);
+
+                if (!(val_opts & LYD_VALIDATE_NOT_FINAL)) {
+                    /* perform final validation that assumes the data tree is final */
+                    r = lyd_validate_final_r(*first2, NULL, NULL, mod, NULL, val_opts, 0, 0, getnext_ht);
+                    LY_VAL_ERR_GOTO(r, rc = r, val_opts, cleanup);
+                }
+            }
+
+            /* free the getnext hash table */
+            lyht_free(getnext_ht, lyd_val_getnext_ht_free_cb);
+            getnext_ht = NULL;
         }
 
-        /* finish incompletely validated terminal values/attributes and when conditions */
-        r = lyd_validate_unres(first2, mod, LYD_TYPE_DATA_YANG, node_when_p, 0, node_types_p, meta_types_p,
-                ext_node_p, ext_val_p, val_opts, diff);
-        LY_VAL_ERR_GOTO(r, rc = r, val_opts, cleanup);
-
-        if (!(val_opts & LYD_VALIDATE_NOT_FINAL)) {
-            /* perform final validation that assumes the data tree is final */
-            r = lyd_validate_final_r(*first2, NULL, NULL, mod, NULL, val_opts, 0, 0, getnext_ht);
+        if (!pass) {
+            /* finish incompletely validated terminal values/attributes and when conditions of all the parsed data */
+            r = lyd_validate_unres(tree, NULL, LYD_TYPE_DATA_YANG, node_when_p, 0, node_types_p, meta_types_p,
+                    ext_node_p, ext_val_p, val_opts, diff);
             LY_VAL_ERR_GOTO(r, rc = r, val_opts, cleanup);
         }
-
-        /* free the getnext hash table */
-        lyht_free(getnext_ht, lyd_val_getnext_ht_free_cb);
-        getnext_ht = NULL;
     }
 
 cleanup:
